@@ -62,6 +62,84 @@ def serial_checks(V):
     return n
 
 
+class _FailingColl(corr_C03._FakeColl):
+    """input collection whose k-th image cannot be loaded (the error is raised in the
+    PARENT, inside the dispatch loop, not in a worker)"""
+
+    def __init__(self, n, rec, k):
+        super().__init__(n, rec, set())
+        self.k = k
+
+    def images(self):
+        for i in range(self.n):
+            if i == self.k:
+                raise IOError(f"cannot load input image {i}")
+            yield corr_C03._FakeImage(i, self.rec, self.bad)
+
+
+def producer_fault_cases(rng, V, n_cases):
+    """An error raised on the producer side of a parallel stage (loading an input image,
+    evaluating the tile filter while enumerating leaves) must reach the caller as well."""
+    from toasty.multi_tan import MultiTanProcessor
+    from toasty.multi_wcs import MultiWcsProcessor
+    from toasty.pyramid import Pyramid
+    done = 0
+    hist = {}
+    for k in range(n_cases):
+        srng = common.rng_for(rng.randrange(1 << 30), "C19p")
+        which = ("multi_tan", "multi_wcs", "visit_leaves")[k % 3]
+        par = srng.choice((2, 3))
+        n = srng.choice((3, 5, 8))
+        at = srng.randrange(n)
+        sref = [None]
+        rec = corr_C03.Rec(sref)
+
+        def fn():
+            if which == "multi_tan":
+                proc = MultiTanProcessor(_FailingColl(n, rec, at))
+                proc._descs = [corr_C03._FakeDesc(i) for i in range(n)]
+                proc._tile_parallel(corr_C03._FakePio(), False, par)
+            elif which == "multi_wcs":
+                proc = MultiWcsProcessor(_FailingColl(n, rec, at))
+                proc._descs = [corr_C03._FakeDesc(i) for i in range(n)]
+                proc._combined_wcs = None
+                proc._tile_parallel(corr_C03._FakePio(), None, False, par)
+            else:
+                calls = [0]
+
+                def flt(tile):
+                    calls[0] += 1
+                    # the counting pass evaluates the filter 20 times at depth 2; fail during dispatch
+                    if calls[0] == 20 + 4 + at:
+                        raise IOError("tile filter failed")
+                    return True
+
+                Pyramid.new_toast_filtered(2, flt).visit_leaves(lambda pos, tile: None, parallel=par)
+
+        orig_init = detsched.Scheduler.__init__
+
+        def hooked(self, *a, **kw):
+            orig_init(self, *a, **kw)
+            sref[0] = self
+
+        detsched.Scheduler.__init__ = hooked
+        sink = io.StringIO()
+        try:
+            with contextlib.redirect_stdout(sink), contextlib.redirect_stderr(sink):
+                outcome, val, S = detsched.run_under((), fn, pipe_cap=srng.choice((1, 4, 1 << 20)),
+                                                     chooser=corr_C03.make_chooser(srng, srng.choice(corr_C03.MODES), 200))
+        finally:
+            detsched.Scheduler.__init__ = orig_init
+        cls = classify(outcome)
+        hist[f"{which}/producer-side/{cls}"] = hist.get(f"{which}/producer-side/{cls}", 0) + 1
+        done += 1
+        if cls != "raised" or not isinstance(val, IOError):
+            V.disagreement("C19: an error raised on the producer side of a parallel stage must reach the caller",
+                           dict(stage=which, par=par, n=n, fails_at=at, chosen=[list(ch) for _e, ch in S.trace][:200]),
+                           "IOError reaches the caller", f"{cls} ({outcome}: {val!r})", True)
+    return done, hist
+
+
 def run_all_bad(srng, stage_fn):
     """A run in which the first `par` items all raise, so that every worker dies."""
     import random
@@ -83,6 +161,7 @@ def run(ctx, V):
     n_visit = 150 if quick else 1500
     n_walk = 100 if quick else 1000
     n_serial = serial_checks(V)
+    n_prod, prod_hist = producer_fault_cases(rng, V, 30 if quick else 300)
     # --- producer/worker stages -------------------------------------------------
     vres = []
     for k in range(n_visit):
@@ -161,7 +240,8 @@ def run(ctx, V):
                            cdesc, "exception reaches the caller", f"{cls} ({r['outcome']})", True,
                            finding_key=f"C19/walk/{cls}")
     samples = [dict(desc=r["desc"], par=r["par"], bad=r["bad"], outcome=r["outcome"]) for r in vres[:3]]
-    return dict(evaluations=n_serial + len(vres) + len(wres), distinct_nontrivial=len(vterms) + len(wterms),
+    outcomes.update({tuple(k.rsplit("/", 1)): v for k, v in prod_hist.items()})
+    return dict(evaluations=n_serial + n_prod + len(vres) + len(wres), distinct_nontrivial=len(vterms) + len(wterms),
                 traces_validated_against_impl=len(vterms) + len(wterms),
                 outcome_histogram={f"{s}/{c}": n for (s, c), n in sorted(outcomes.items())},
                 rule="every case: one stage, one raising item, random worker count / pipe capacity / biased schedule; "
